@@ -43,14 +43,19 @@ func (s *Server) processQueryLogsAndStats(dctx *dnsContext) (rc resultCode) {
 
 	qt, cl := q.Qtype, q.Qclass
 
-	// Synchronize access to s.queryLog and s.stats so they won't be suddenly
-	// uninitialized while in use.  This can happen after proxy server has been
-	// stopped, but its workers haven't yet exited.
+	// Get s.queryLog and s.stats under the lock, so that they aren't reset by
+	// Close in the meantime.  This can happen after proxy server has been
+	// stopped, but its workers haven't yet exited.  Don't keep the lock while
+	// using them: the query log looks the client up through the clients
+	// container, which asks this server whether the client is blocked, and
+	// that takes s.serverLock for reading again.  With a writer arriving
+	// between the two acquisitions, both would wait for each other forever.
 	s.serverLock.RLock()
-	defer s.serverLock.RUnlock()
+	queryLog, st, refuseAny := s.queryLog, s.stats, s.conf.RefuseAny
+	s.serverLock.RUnlock()
 
-	if s.shouldLog(host, qt, cl, ids) {
-		s.logQuery(dctx, ip, processingTime)
+	if shouldLog(queryLog, refuseAny, host, qt, cl, ids) {
+		logQuery(queryLog, dctx, ip, processingTime)
 	} else {
 		log.Debug(
 			"dnsforward: request %s %s %q from %s ignored; not adding to querylog",
@@ -61,8 +66,8 @@ func (s *Server) processQueryLogsAndStats(dctx *dnsContext) (rc resultCode) {
 		)
 	}
 
-	if s.shouldCountStat(host, qt, cl, ids) {
-		s.updateStats(dctx, ipStr, processingTime)
+	if shouldCountStat(st, host, qt, cl, ids) {
+		updateStats(st, dctx, ipStr, processingTime)
 	} else {
 		log.Debug(
 			"dnsforward: request %s %s %q from %s ignored; not counting in stats",
@@ -77,27 +82,39 @@ func (s *Server) processQueryLogsAndStats(dctx *dnsContext) (rc resultCode) {
 }
 
 // shouldLog returns true if the query with the given data should be logged in
-// the query log.  s.serverLock is expected to be locked.
-func (s *Server) shouldLog(host string, qt, cl uint16, ids []string) (ok bool) {
-	if qt == dns.TypeANY && s.conf.RefuseAny {
+// queryLog, which may be nil.
+func shouldLog(
+	queryLog querylog.QueryLog,
+	refuseAny bool,
+	host string,
+	qt uint16,
+	cl uint16,
+	ids []string,
+) (ok bool) {
+	if qt == dns.TypeANY && refuseAny {
 		return false
 	}
 
 	// TODO(s.chzhen):  Use dnsforward.dnsContext when it will start containing
 	// persistent client.
-	return s.queryLog != nil && s.queryLog.ShouldLog(host, qt, cl, ids)
+	return queryLog != nil && queryLog.ShouldLog(host, qt, cl, ids)
 }
 
 // shouldCountStat returns true if the query with the given data should be
-// counted in the statistics.  s.serverLock is expected to be locked.
-func (s *Server) shouldCountStat(host string, qt, cl uint16, ids []string) (ok bool) {
+// counted in st, which may be nil.
+func shouldCountStat(st stats.Interface, host string, qt, cl uint16, ids []string) (ok bool) {
 	// TODO(s.chzhen):  Use dnsforward.dnsContext when it will start containing
 	// persistent client.
-	return s.stats != nil && s.stats.ShouldCount(host, qt, cl, ids)
+	return st != nil && st.ShouldCount(host, qt, cl, ids)
 }
 
-// logQuery pushes the request details into the query log.
-func (s *Server) logQuery(dctx *dnsContext, ip net.IP, processingTime time.Duration) {
+// logQuery pushes the request details into queryLog, which must not be nil.
+func logQuery(
+	queryLog querylog.QueryLog,
+	dctx *dnsContext,
+	ip net.IP,
+	processingTime time.Duration,
+) {
 	pctx := dctx.proxyCtx
 
 	p := &querylog.AddParams{
@@ -137,11 +154,16 @@ func (s *Server) logQuery(dctx *dnsContext, ip net.IP, processingTime time.Durat
 		}
 	}
 
-	s.queryLog.Add(p)
+	queryLog.Add(p)
 }
 
-// updateStats writes the request data into statistics.
-func (s *Server) updateStats(dctx *dnsContext, clientIP string, processingTime time.Duration) {
+// updateStats writes the request data into st, which must not be nil.
+func updateStats(
+	st stats.Interface,
+	dctx *dnsContext,
+	clientIP string,
+	processingTime time.Duration,
+) {
 	pctx := dctx.proxyCtx
 
 	var upstreamStats []*proxy.UpstreamStatistics
@@ -178,5 +200,5 @@ func (s *Server) updateStats(dctx *dnsContext, clientIP string, processingTime t
 		e.Result = stats.RFiltered
 	}
 
-	s.stats.Update(e)
+	st.Update(e)
 }
